@@ -43,11 +43,44 @@ const c18Rule = "case = well-formed sFlow v5 datagram (generator of C07) + filte
 	"and equals the unfiltered decode of the same datagram minus those samples; non-trivial = a filtered sample precedes a kept flow/counter sample; distinct by hash"
 
 type c18Case struct {
+	// Weird: some sampled packets are of protocols the collector has no transport decoder for (outside C07's domain):
+	// only the metamorphic relation is applied, and only when the unfiltered decode succeeds at all
+	Weird  bool            `json:"weird,omitempty"`
 	Filter []uint32        `json:"filter"`
 	D      wire.SFDatagram `json:"d"`
 }
 
 func runC18(c *c18Case) (v verdict, sig string, err error) {
+	if c.Weird {
+		v.label(true, "undecodable-sampled-packets")
+		gu, eu, p2 := decodeSFlow(c.D.Bytes(), nil)
+		if p2 != nil {
+			return v, "panic", p2
+		}
+		if gu == nil || eu != nil {
+			v.label(true, "unfiltered-decode-refused")
+			return v, "", nil // the datagram is refused as a whole today: the filter has nothing to be compared with
+		}
+		gf, ef, p1 := decodeSFlow(c.D.Bytes(), c.Filter)
+		if p1 != nil {
+			return v, "panic", p1
+		}
+		if gf == nil || ef != nil {
+			return v, "metamorphic", fmt.Errorf("filter %v: the datagram decodes without the filter but is refused with it: %v", c.Filter, ef)
+		}
+		wantS, wantC := gu.Samples, gu.Counters
+		if inFilter(c.Filter, 1) {
+			wantS = wantS[:0]
+		}
+		if inFilter(c.Filter, 2) {
+			wantC = wantC[:0]
+		}
+		if len(gf.Samples) != len(wantS) || len(gf.Counters) != len(wantC) || !reflect.DeepEqual(gf.Samples, wantS) && len(wantS) > 0 || !reflect.DeepEqual(gf.Counters, wantC) && len(wantC) > 0 {
+			return v, "metamorphic", fmt.Errorf("filter %v (datagram with sampled packets of undecodable protocols): %d/%d samples/counters, unfiltered decode minus filtered types has %d/%d", c.Filter, len(gf.Samples), len(gf.Counters), len(wantS), len(wantC))
+		}
+		v.NT = true
+		return v, "", nil
+	}
 	v, sig, err = runSFlowDecode(&c.D, c.Filter)
 	nt := false
 	for _, l := range v.Labels {
@@ -143,6 +176,18 @@ func TestC18(t *testing.T) {
 				}
 			}
 			c.D.Samples = append(pre, c.D.Samples...)
+		}
+		if rapid.IntRange(0, 7).Draw(t, "weird") == 0 {
+			for si := range c.D.Samples {
+				if f := c.D.Samples[si].Flow; f != nil {
+					for ri := range f.Recs {
+						if f.Recs[ri].Raw != nil && rapid.Bool().Draw(t, "weirdthis") {
+							wire.WeirdL4(t, &f.Recs[ri].Raw.Pkt)
+							c.Weird = true
+						}
+					}
+				}
+			}
 		}
 		v, sig, err := runC18(&c)
 		col.report(t, mustJSON(c), v, sig, err)
